@@ -77,6 +77,8 @@ def run_history(t):
         members = [os.path.join(g, n) for n in ("a", "b", "c")]
         reads0 = [{"f": proj(p), "v": c02.read_id(p)} for p in members]
         args = list(dd.OPS[scen["op"]]) + ([os.path.join(work, "MV")] if scen["op"] == "move" else [])
+        # selection options of the dedupe command must not weaken the staleness check (a protected member may be the changed one)
+        args += [[], [], ["--keep-name", "a"], ["--keep-path", os.path.join(g, "a")], ["--keep-name", "b"], ["--name", "[bc]"]][k % 6]
         d = lib.run_fclones(args, work, env, stdin=report)
         inv1 = lib.inventory(work, with_times=True)
         inv1 = {q: v for q, v in inv1.items() if q == "b" or q.startswith("b/") or q == "MV" or q.startswith("MV/") or q == "newer_target"}
